@@ -643,8 +643,9 @@ def check_instance(fx, R, cq, cname):
     from .. import lsmodel, sym, alg
     getj = [g for g in fx.fn(cq + '::getJ') if not g.get('const')]
     escapes = any('&' in (g.get('sig') or '').split('(')[0] for g in getj)
-    for (data, est, tag) in ((3, 2, '3 rows of 5'), (2, 2, 'square: 2 rows of 5'), (192, 1, 'block sizes: 192 rows (a multiple of 8, 16, 32 and 64) of 200')):
-        inst = lsmodel.Instance(data=data, est=est, rows=200 if data == 192 else lsmodel.ROWS)
+    for (data, est, tag) in ((3, 2, '3 rows of 5'), (2, 2, 'square: 2 rows of 5'), (192, 1, 'block sizes: 192 rows (a multiple of 8, 16, 32 and 64) of 200'),
+                             (131, 1, 'remainder rows: 131 rows (a prime: no block size divides it) of 200')):
+        inst = lsmodel.Instance(data=data, est=est, rows=200 if data >= 100 else lsmodel.ROWS)
         J3, Y3, W3 = inst.cur()
         stale_rows, old_state = inst.stale()
         wsyms = set(inst.W)
@@ -659,7 +660,7 @@ def check_instance(fx, R, cq, cname):
                 ('estimateUsingCholeskyDecomposition', lambda st: st.ret, exp_chol, 'A (J^T J)^-1 J^T Y + b', False),
                 ('weightedEstimate', lambda st: st.ret, exp_w, 'A (J^T W^2 J)^-1 J^T W^2 Y + b (the minimiser of sum (w_i r_i)^2)', True),
                 ('estimateUsingCholeskyDecomposition', lambda st: st.fields.get(('this', 'inverseJtJ_')), (J3.T * J3).inv(), 'inverseJtJ_ = (J^T J)^-1 (what computeEstimateCovariance scales)', False))
-        if data == 192:
+        if data >= 100:
             jobs = jobs[:2]         # row coverage of the two accumulation helpers only
         for (name, getter, expected, what, weighted) in jobs:
             f = fx.one(cq + '::' + name)
@@ -706,6 +707,11 @@ def check_instance(fx, R, cq, cname):
                                                                        '; J_ is handed out by mutable reference (getJ()), so no flag can know that the caller has not rewritten it' if desc else ''), fx.rel(f['loc']), 'E-ALG')
                     else:
                         R.undecided('L7', pinst, 'the path re-uses matrices of an earlier solve (%s); whether its condition guarantees they are current is not decided' % sy)
+                elif data >= 100 and set(sp.Matrix(expected).free_symbols) - fs and not (fs - set(J3.free_symbols) - set(Y3.free_symbols)):
+                    missing = sorted(map(str, set(sp.Matrix(expected).free_symbols) - fs), key=lambda n_: (len(n_), n_))
+                    R.violated('L7', '%s::%s:rows-left-out' % (cname, name), 'on the instance with %d current rows the result of %s()%s does not depend on %s: %d entr%s of the CURRENT rows never reach %s, so the solver '
+                               'minimises over a subset of the rows (data sizes up to 500 are inside the quantifier)' % (data, name, ' on the path [%s]' % desc if desc else '', ', '.join(missing[:4]), len(missing),
+                                                                                                                    'y' if len(missing) == 1 else 'ies', what), fx.rel(f['loc']), 'E-ALG')
                 elif not weighted and fs & wsyms:
                     sy = sorted(map(str, fs & wsyms))[0]
                     R.violated('L7', '%s::%s:weights' % (cname, name), 'the result of the unweighted %s() contains the weight %s: it is not the minimiser of |Jx - Y|' % (name, sy), fx.rel(f['loc']), 'E-ALG')
@@ -719,9 +725,41 @@ def check_instance(fx, R, cq, cname):
                         if v[0] == 'nonzero':
                             bad = v
                             break
+                    scaled_note = ''
                     if bad:
-                        R.violated('L7', '%s::%s:%s' % (cname, name, 'stored-inverse' if what.startswith('inverseJtJ_') else 'closed-form'), 'on the instance (%s) %s()%s does not return %s: an entry differs by %s at %s' % (
-                            tag, name, ' on the path [%s]' % desc if desc else '', what, bad[2], alg.witness_text(bad[1])[:200]), fx.rel(f['loc']), 'E-ALG')
+                        # the statement is "to rounding": a difference far below the accuracy of the scalar type at this witness is only a violation if it grows to a macroscopic one elsewhere in the
+                        # quantifier (every full-rank J of condition number below 1e6, whatever the magnitude of its entries): the same witness with the entries of J scaled down
+                        try:
+                            env0 = dict(bad[1])
+                            for n_, y_ in enumerate(sorted(set().union(*[x_.free_symbols for x_ in list(sp.Matrix(expected)) + list(diff)]) - set(env0), key=str)):
+                                env0[y_] = sp.Rational(37 + 13 * n_, 100) * (-1) ** n_        # witness values for the symbols the deciding entry does not contain
+                            ref = max([abs(sp.N(x_.subs(env0), 30)) for x_ in sp.Matrix(expected)] + [sp.Float(0)])
+                            rel0 = abs(sp.N(bad[2], 30)) / (ref if ref != 0 else 1)
+                        except Exception:
+                            rel0, env0 = None, None
+                        if rel0 is not None and rel0 < sp.Float('1e-6' if 'float' in cq else '1e-10'):
+                            jsyms = set(J3.free_symbols)
+                            grown = None
+                            for scale in (sp.Rational(1, 10 ** 3), sp.Rational(1, 10 ** 5), sp.Rational(1, 10 ** 7)):
+                                env1 = {k_: (v_ * scale if k_ in jsyms else v_) for k_, v_ in env0.items()}
+                                try:
+                                    dv = [abs(sp.N(sp.together(d_).subs(env1), 30)) for d_ in diff]
+                                    rv = max([abs(sp.N(x_.subs(env1), 30)) for x_ in sp.Matrix(expected)])
+                                    rel1 = max(dv) / (rv if rv != 0 else 1)
+                                except Exception:
+                                    continue
+                                if rel1 > sp.Float('1e-4' if 'float' in cq else '1e-8'):
+                                    grown = (scale, rel1)
+                                    break
+                            if grown:
+                                scaled_note = ' - %s relative there, and %s relative with the entries of J scaled by %s (rank and conditioning unchanged, inside the quantifier): the deviation is an ABSOLUTE quantity added to ' \
+                                              'the problem, macroscopic for designs with small entries' % (sp.N(rel0, 3), sp.N(grown[1], 3), grown[0])
+                            else:
+                                R.undecided('L7', pinst, 'result differs from %s by %s relative at a witness, below the rounding of the scalar type, and the difference does not grow when J is scaled' % (what, sp.N(rel0, 3)))
+                                continue
+                    if bad:
+                        R.violated('L7', '%s::%s:%s' % (cname, name, 'stored-inverse' if what.startswith('inverseJtJ_') else 'closed-form'), 'on the instance (%s) %s()%s does not return %s: an entry differs by %s at %s%s' % (
+                            tag, name, ' on the path [%s]' % desc if desc else '', what, bad[2], alg.witness_text(bad[1])[:200], scaled_note), fx.rel(f['loc']), 'E-ALG')
                     else:
                         R.undecided('L7', pinst, 'result differs in form from %s and the difference is not decided' % what)
             if all_ok and sts and tag.startswith('3 rows'):
